@@ -209,7 +209,9 @@ PROPS["C11"] = {
         {"id": "step", "quick": _c11(_C11["step_q"]) + _c11(_C11["misc"]) + _OOB + ["c11::c11_negative_twin"] +
          # "its buffer is always grown and freed through the functions stored in it": a vector fabricated with foreign
          # reserve/drop functions over non-heap memory (shared with C05)
-         ["c05::c05_foreign_cvec_i0", "c05::c05_foreign_cvec_i1", "c05::c05_foreign_cvec_i2"] +
+         ["c05::c05_foreign_cvec_i0", "c05::c05_foreign_cvec_i1", "c05::c05_foreign_cvec_i2",
+          # any shape up to capacity 40: operations that need no growth keep buffer and capacity
+          "c05::c05_foreign_cvec_any_shape_no_growth"] +
          # zero-sized elements with a destructor; clone_from (whatever its implementation)
          ["c11x::c11x_zero_sized_elements_with_destructor", "c11x::c11x_clone_from_drops_the_surplus"],
          "thorough_adds": _c11(_C11["step_t"]), "timeout": 1800, "mem_gb": 10, "cbmc_args": LEAK},
@@ -319,6 +321,7 @@ PROPS["C05"] = {
     "groups": [
         {"id": "foreign",
          "quick": ["c05::c05_foreign_cbox", "c05::c05_foreign_cbox_without_drop_fn", "c05::c05_foreign_cvec_i0", "c05::c05_foreign_cvec_i1", "c05::c05_foreign_cvec_i2",
+                   "c05::c05_foreign_cvec_any_shape_no_growth",
                    "c05::c05_foreign_cslicebox", "c05::c05_foreign_callback", "c05::c05_foreign_iterator",
                    "c10::c10_foreign_functions_used",
                    # a vector that starts empty still carries its creator's grow and release functions
@@ -357,7 +360,7 @@ PROPS["C05"] = {
     ],
     "negative": ["c05::c05_negative_twin"],
     "bounds": "two-role model inside one build: values fabricated through their C view by a plugin role with its own function "
-              "pointers over NON-HEAP memory (CBox, CArc, CVec over an 8-slot arena, CSliceBox, callback, iterator), then used only "
+              "pointers over NON-HEAP memory (CBox, CArc, CVec over an 8-slot arena - and, for operations that need no growth, a vector of any capacity 0..=40 and length 0..=capacity -, CSliceBox, callback, iterator), then used only "
               "through cglue's public API by the host role; symbolic payloads, operation choice, stop position, item count <= 4; "
               "insertion index enumerated {0,1,2}",
     "outside": "the property's real quantifier - pairs of builds by different compiler versions, optimisation levels, repr(Rust) "
